@@ -116,11 +116,13 @@ pub fn check_case(acc: &mut Acc, arch: &str, bytes: &[u8], addr: u64, intrinsics
         Lifted::Ok(btr) => {
             acc.count("nontrivial", 1);
             let bad = lifter::validate(&btr, arch);
-            if !bad.is_empty() {
-                let m = mnemonic(arch, bytes, addr);
-                for (class, what) in bad {
-                    acc.violation(format!("C05|{}|{}|{}", family(arch), class, m), format!("{}: {} ({})", arch, what, hex(bytes)), case());
-                }
+            for (class, what, at) in bad {
+                // attribute to the native instruction the offending IL belongs to
+                let at = at.unwrap_or(addr);
+                let at = if family(arch) == "mips" && at % 4 == 1 { at - 1 } else { at };
+                let off = at.wrapping_sub(addr) as usize;
+                let m = if off < bytes.len() { mnemonic(arch, &bytes[off..], at) } else { mnemonic(arch, bytes, addr) };
+                acc.violation(format!("C05|{}|{}|{}", family(arch), class, m), format!("{}: {} ({})", arch, what, hex(bytes)), case());
             }
             match lifter::lift_block(arch, bytes, addr, intrinsics) {
                 Lifted::Ok(b2) => {
